@@ -66,7 +66,7 @@ DropZeros(f) == IF Len(f) > 5 /\ f[Len(f)] = <<48>> THEN DropZeros(SubSeq(f, 1, 
 AigerHeader(tag, it) == tag \o JoinSp(DropZeros(SubSeq(it, 2, 10))) \o NLc
 
 RECURSIVE AigerItems(_, _, _)
-\* code: the literal code of the next implicit definition in the binary format (latch state / gate output)
+\* code: the literal code (digits) of the next implicit definition in the binary format (latch state / gate output)
 AigerItems(items, binary, code) ==
   IF items = <<>> THEN <<>>
   ELSE
@@ -74,22 +74,22 @@ AigerItems(items, binary, code) ==
   CASE it[1] \in {"lit", "size"} -> it[2] \o NLc \o AigerItems(rest, binary, code)
     [] it[1] = "latch" ->
          IF binary
-           THEN it[2] \o (IF it[3] = <<49>> THEN <<32, 49>> ELSE IF it[3] = <<120>> THEN SPc \o Ascii(OfNat(code)) ELSE <<>>) \o NLc
-                \o AigerItems(rest, binary, code + 2)
+           THEN it[2] \o (IF it[3] = <<49>> THEN <<32, 49>> ELSE IF it[3] = <<120>> THEN SPc \o Ascii(code) ELSE <<>>) \o NLc
+                \o AigerItems(rest, binary, Add(code, <<2>>))
            ELSE it[2] \o SPc \o it[3] \o (IF it[4] = <<49>> THEN <<32, 49>> ELSE IF it[4] = <<120>> THEN SPc \o it[2] ELSE <<>>) \o NLc
                 \o AigerItems(rest, binary, code)
     [] it[1] = "and" ->
          IF binary
            THEN LET in0 == DigitsOfBytes(it[2])  in1 == DigitsOfBytes(it[3]) IN
-                VarintBytes(Sub(OfNat(code), in0)) \o VarintBytes(Sub(in0, in1)) \o AigerItems(rest, binary, code + 2)
+                VarintBytes(Sub(code, in0)) \o VarintBytes(Sub(in0, in1)) \o AigerItems(rest, binary, Add(code, <<2>>))
            ELSE it[2] \o SPc \o it[3] \o SPc \o it[4] \o NLc \o AigerItems(rest, binary, code)
     [] it[1] = "sym" -> it[2] \o it[3] \o SPc \o it[4] \o NLc \o AigerItems(rest, binary, code)
     [] it[1] = "comment" -> <<99, 10>> \o it[2] \o NLc \o AigerItems(rest, binary, code)
 
 AigerDoc(items, binary) ==
   LET h == Head(items)
-      I == NatOf(DigitsOfBytes(h[3]), 0)
-  IN  AigerHeader(IF binary THEN <<97, 105, 103>> ELSE <<97, 97, 103>>, h) \o AigerItems(Tail(items), binary, 2 * (I + 1))
+      I == DigitsOfBytes(h[3])
+  IN  AigerHeader(IF binary THEN <<97, 105, 103>> ELSE <<97, 97, 103>>, h) \o AigerItems(Tail(items), binary, Twice(Add(I, <<1>>)))
 
 (***************************************************************************)
 (* BTOR2: <<"cline", bytes>> | <<"node", id, keyword, args, symbol, comment>>  *)
